@@ -575,6 +575,10 @@ func init() {
 				fl.MinSize = 4
 				parts = append(parts, part{fl, false, "flow-size-4"})
 			}
+			if v := os.Getenv("VERIF_C24_PART"); v == "flow" && len(parts) == 2 {
+				parts = parts[1:]
+				r.Capped("development filter VERIF_C24_PART=flow")
+			}
 			if v := os.Getenv("VERIF_C24_MAXSIZE"); v != "" {
 				var maxSize int
 				fmt.Sscan(v, &maxSize)
